@@ -272,6 +272,10 @@ pub struct World {
     trace: bool,
     did_tree: bool,
     used_keys: Vec<u64>,
+    /// planned tour (position key in which to play, move), next entry last
+    tour: Vec<(Vec<u8>, Mv)>,
+    tour_prev: Option<Vec<u8>>,
+    tour_waits: u32,
 }
 
 /// A second, independent generator for late additions to the swarm configuration, so that adding a knob does
@@ -369,6 +373,9 @@ impl World {
             trace: std::env::var("CHESS_DST_TRACE").is_ok(),
             did_tree: false,
             used_keys: vec![],
+            tour: vec![],
+            tour_prev: None,
+            tour_waits: 0,
         }
     }
 
@@ -844,6 +851,50 @@ impl World {
 
     // ------------------------------------------------------------------------------ clients
 
+    /// The move of the game proper (not of an engine's search): a planned tour first - two men of one side change
+    /// places while the other side marks time, then back, and again - otherwise the run's policy.
+    fn choose_game_move(&mut self, pos: &Pos, lm: &[Mv], my_turn: bool) -> Option<Mv> {
+        if let Some((k, m)) = self.tour.last().cloned() {
+            let srv = self.exec.srv.model.as_ref().map(|g| g.pos.key_beside());
+            let here = pos.key_beside();
+            if srv.as_ref() == Some(&k) {
+                if my_turn && here == k && lm.contains(&m) && !self.rng.chance(1, 200) {
+                    self.tour.pop();
+                    self.tour_prev = Some(k);
+                    self.tour_waits = 0;
+                    if self.tour.is_empty() {
+                        self.exec.stats.cnt("reach.tour_completed");
+                    }
+                    return Some(m);
+                }
+            } else if srv.is_some() && srv == self.tour_prev {
+                // the last tour move is still on its way to the server
+            } else {
+                self.exec.stats.cnt("reach.tour_abandoned");
+                self.tour.clear();
+                return Some(self.choose_move(pos, lm));
+            }
+            // this replica is behind, or it is the other side's turn: wait (not for ever - messages get lost)
+            self.tour_waits += 1;
+            if self.tour_waits > 12 {
+                self.exec.stats.cnt("reach.tour_abandoned");
+                self.tour.clear();
+                return Some(self.choose_move(pos, lm));
+            }
+            return None;
+        }
+        if my_turn && self.cfg.policy == 3 && !self.cfg.long_then_mate && self.rng.chance(1, 10) {
+            if let Some(t) = self.plan_tour(pos) {
+                self.tour = t;
+                let (k, m) = self.tour.pop().unwrap();
+                self.tour_prev = Some(k);
+                self.tour_waits = 0;
+                return Some(m);
+            }
+        }
+        Some(self.choose_move(pos, lm))
+    }
+
     fn choose_move(&mut self, pos: &Pos, lm: &[Mv]) -> Mv {
         let mut policy = if self.rng.chance(1, 8) { 0 } else { self.cfg.policy };
         if self.cfg.long_then_mate {
@@ -953,6 +1004,119 @@ impl World {
         }
     }
 
+    /// Shortest way (model search) to the position in which the men on `a` and `b` (same side `pc`) have changed
+    /// places while the other side moves one man to and fro between `m0` and `m1`; nothing is captured, no pawn
+    /// moves, no right is lost, so every position on the way belongs to one repetition window.
+    fn swap_path(pos: &Pos, pc: Col, a: Sq, b: Sq, m0: Sq, m1: Sq) -> Option<Vec<(Vec<u8>, Mv)>> {
+        struct Node {
+            p: Pos,
+            a: Sq,
+            b: Sq,
+            m: Sq,
+            parent: usize,
+            mv: Option<Mv>,
+            depth: u32,
+        }
+        let mut nodes = vec![Node { p: pos.clone(), a, b, m: m0, parent: 0, mv: None, depth: 0 }];
+        let mut seen: std::collections::HashSet<(Vec<u8>, Sq, Sq)> = std::collections::HashSet::new();
+        seen.insert((pos.key_beside(), a, b));
+        let mut i = 0;
+        while i < nodes.len() && nodes.len() < 2500 {
+            let (p, na, nb, nm, depth) = (nodes[i].p.clone(), nodes[i].a, nodes[i].b, nodes[i].m, nodes[i].depth);
+            if depth > 0 && p.stm == pos.stm && na == b && nb == a && nm == m0 {
+                let mut out = vec![];
+                let mut j = i;
+                while let Some(mv) = nodes[j].mv {
+                    let par = nodes[j].parent;
+                    out.push((nodes[par].p.key_beside(), mv));
+                    j = par;
+                }
+                out.reverse();
+                return Some(out);
+            }
+            if depth < 18 {
+                for mv in p.legal_moves() {
+                    if p.is_capture(mv) || p.is_castle(mv) || mv.promo.is_some() {
+                        continue;
+                    }
+                    let ok = if p.stm == pc { mv.from == na || mv.from == nb } else { mv.from == nm && mv.to == if nm == m0 { m1 } else { m0 } };
+                    if !ok {
+                        continue;
+                    }
+                    let q = p.make(mv);
+                    if q.castle != p.castle {
+                        continue;
+                    }
+                    let (mut qa, mut qb, mut qm) = (na, nb, nm);
+                    if p.stm == pc {
+                        if mv.from == na {
+                            qa = mv.to
+                        } else {
+                            qb = mv.to
+                        }
+                    } else {
+                        qm = mv.to;
+                    }
+                    if seen.insert((q.key_beside(), qa, qb)) {
+                        nodes.push(Node { p: q, a: qa, b: qb, m: qm, parent: i, mv: Some(mv), depth: depth + 1 });
+                    }
+                }
+            }
+            i += 1;
+        }
+        None
+    }
+
+    fn plan_tour(&mut self, pos: &Pos) -> Option<Vec<(Vec<u8>, Mv)>> {
+        let pc = if self.rng.chance(1, 2) { Col::W } else { Col::B };
+        let men: Vec<Sq> = (0..64u8).filter(|s| matches!(pos.sq[*s as usize], Some((k, c)) if c == pc && k != Kind::P)).collect();
+        if men.len() < 2 {
+            return None;
+        }
+        let a = *self.rng.pick(&men);
+        let b = *self.rng.pick(&men);
+        if a == b {
+            return None;
+        }
+        // the other side's marker: a reversible move of one of its men, found in the position where it is to move
+        let probe = if pos.stm == pc {
+            let first: Vec<Mv> = pos.legal_moves().into_iter().filter(|m| (m.from == a || m.from == b) && !pos.is_capture(*m) && !pos.is_castle(*m)).collect();
+            if first.is_empty() {
+                return None;
+            }
+            pos.make(*self.rng.pick(&first))
+        } else {
+            pos.clone()
+        };
+        let marks: Vec<Mv> = probe
+            .legal_moves()
+            .into_iter()
+            .filter(|m| !matches!(probe.sq[m.from as usize], Some((Kind::P, _))) && !probe.is_capture(*m) && !probe.is_castle(*m) && probe.make(*m).castle == probe.castle)
+            .collect();
+        if marks.is_empty() {
+            return None;
+        }
+        let mk = *self.rng.pick(&marks);
+        let leg1 = Self::swap_path(pos, pc, a, b, mk.from, mk.to)?;
+        // the position after the first leg
+        let mut q = pos.clone();
+        for (_, m) in &leg1 {
+            q = q.make(*m);
+        }
+        let leg2 = Self::swap_path(&q, pc, a, b, mk.from, mk.to)?;
+        let same_kind = pos.sq[a as usize].map(|x| x.0) == pos.sq[b as usize].map(|x| x.0);
+        self.exec.stats.cnt("reach.tour_planned");
+        self.exec.stats.cnt(if same_kind { "reach.tour_swaps_two_identical_men" } else { "reach.tour_swaps_two_different_men" });
+        let mut all = vec![];
+        let rounds = 1 + self.rng.below(2);
+        for _ in 0..=rounds {
+            all.extend(leg1.iter().cloned());
+            all.extend(leg2.iter().cloned());
+        }
+        all.reverse(); // next entry last
+        Some(all)
+    }
+
     fn think(&mut self, c: usize) -> Result<(), End> {
         let col = if c == 0 { Col::W } else { Col::B };
         if !self.exec.cl[c].up {
@@ -986,6 +1150,17 @@ impl World {
                 if !my_turn {
                     self.fault("B-TURN");
                 }
+                if pers.random && self.rng.chance(1, 6) {
+                    // a value handed over through the API: source and destination of a legal move, promotion field Pawn or King
+                    self.fault("B-RANDOM");
+                    let lm = pos.legal_moves();
+                    if lm.is_empty() {
+                        return Ok(());
+                    }
+                    let base = *self.rng.pick(&lm);
+                    let k = if self.rng.chance(1, 2) { Kind::P } else { Kind::K };
+                    return self.op(Op::ClientAct { c, act: CAct::Move { mv: Some(Mv::new(base.from, base.to, Some(k))), enc: Enc::Api } });
+                }
                 if pers.random && self.rng.chance(1, 3) {
                     self.fault("B-RANDOM");
                     let m = Mv::new(self.rng.below(64) as u8, self.rng.below(64) as u8, *self.rng.pick(&crate::oracle::ALL_PROMOS));
@@ -999,7 +1174,10 @@ impl World {
                     if lm.is_empty() {
                         return Ok(());
                     }
-                    let m = self.choose_move(&pos, &lm);
+                    let m = match self.choose_game_move(&pos, &lm, my_turn) {
+                        Some(m) => m,
+                        None => return Ok(()),
+                    };
                     if self.cfg.san {
                         let sp = san_spellings(&pos, m);
                         let mut s = self.rng.pick(&sp).clone();
@@ -1116,10 +1294,12 @@ impl World {
                 None => return Ok(()),
             };
             let r = self.rng.below(10);
-            if (self.prof.prop == 3 || self.prof.prop == 8 || self.prof.prop == 9) && self.rng.chance(1, 6) {
+            if [1usize, 3, 4, 8, 9, 18].contains(&self.prof.prop) && self.rng.chance(1, 6) {
                 // a UI edits the position with the (deprecated) setters
                 let sq = self.rng.below(64) as u8;
-                let kind = if self.rng.chance(1, 3) {
+                let kind = if self.rng.chance(1, 8) {
+                    pos.sq[sq as usize] // the same content again: clear an empty square, or put the man that is already there
+                } else if self.rng.chance(1, 3) {
                     None
                 } else {
                     let k = *self.rng.pick(&[Kind::P, Kind::N, Kind::B, Kind::R, Kind::Q]);
@@ -1365,7 +1545,7 @@ impl World {
                 self.used_keys[i] = alias_key;
             }
             let here_alias = if self.rng.chance(1, 2) { 0 } else { (self.rng.next_u64() >> 8) << self.cfg.table_log2.max(1) };
-            let val = *self.rng.pick(&[0u8, 0, 0, 0, 1, 1, 2, 3, 3]);
+            let val = *self.rng.pick(&[0u8, 0, 0, 0, 1, 1, 2, 3, 3, 4]);
             match self.rng.below(8) {
                 0 | 1 => self.eop(c, task, EOp::TableGetHere { alias: here_alias })?,
                 2 => self.eop(c, task, EOp::TableAddHere { alias: here_alias })?,
@@ -1545,6 +1725,21 @@ impl World {
             }
         }
         out.retain(|q| q.strict_validity_error().is_none() && q != p);
+        // positions no game reaches but the library takes (its validity test knows nothing of pawns on the first and
+        // last rank): they get hashes like all others, and the census compares them with everything else
+        for _ in 0..4 {
+            let f = self.rng.usize(8);
+            let r = if self.rng.chance(1, 2) { 0 } else { 7 };
+            let c = if self.rng.chance(1, 2) { Col::W } else { Col::B };
+            let mut q = base_no_ep.clone();
+            if matches!(q.sq[r * 8 + f], Some((Kind::K, _))) {
+                continue;
+            }
+            q.sq[r * 8 + f] = Some((Kind::P, c));
+            if q.validity_error().is_none() && q.men(c) <= 16 && &q != p {
+                out.push(q);
+            }
+        }
         out
     }
 
